@@ -1,5 +1,138 @@
-From GS Require Import Base.Bytes Model.Lexer Proofs.Lexer.
+(* C02 -- the line parser accepts exactly the documented grammar and extracts its fields.
 
-Theorem C02_normalise_app : forall a b, normalise (a ++ b) = normalise a ++ normalise b.
-Proof. exact normalise_app. Qed.
-Print Assumptions C02_normalise_app.
+   [lex pf ns l] (Model/Lexer.v) is the model of Lexer.Run on line [l] under namespace [ns];
+   [pf] is strconv.ParseFloat, an arbitrary function here (oracle).  The grammar is given as a
+   generator (Model/LexGrammar.v): [render_metric raw val ty attrs] is the line
+   raw:val|ty{|@rate | |#t1,t2.. | |other}*, [render_event title text attrs] the line
+   _e{|title|,|text|}:title|text{|d:.. |h:.. |k:.. |p:.. |s:.. |t:.. |#tags |other}*.
+   Side conditions [wf_*] only say that a piece does not contain the separator that ends it. *)
+From GS Require Import Base.Bytes Model.Lexer Model.LexGrammar.
+From GS Require Import Proofs.Lexer Proofs.LexerGrammar Proofs.LexerGrammarEvent Proofs.LexerGrammarWf.
+Local Open Scope N_scope.
+
+(* Every metric line of the grammar, with the attribute fields in any order and multiplicity,
+   yields exactly: reject if the name normalises to nothing or some '@' string does not convert
+   ([attrs_rate]: every '@' field is converted when met, the last one is the rate, default 1);
+   otherwise the end of Lexer.Run ([finish_metric]: rate finite > 0, value converted unless a
+   set, not NaN) applied to the namespace-prefixed normalised name, the value string, the type,
+   that rate, and the non-empty tags of all '#' fields in order ([attrs_tags]). *)
+Theorem C02_grammar_metric :
+  forall (pf : str -> pfres) (ns raw val : str) (ty : tytok) (attrs : list attr),
+    wf_raw_name raw ->             (* no ':' , no NUL, first byte not '_' *)
+    wf_value val ->                (* no '|', no NUL *)
+    Forall wf_attr attrs ->        (* fields without '|'; tags without ',' '|' NUL; other fields non-empty *)
+    lex pf ns (render_metric raw val ty attrs) =
+    match normalise raw with
+    | [] => OReject EEmptyKey
+    | key =>
+        match attrs_rate pf f64_one attrs with
+        | RateBad e => OReject e
+        | RateOk rate => finish_metric pf (with_ns ns key) (tytok_type ty) val rate (attrs_tags attrs)
+        end
+    end.
+Proof. exact grammar_metric. Qed.
+Print Assumptions C02_grammar_metric.
+
+(* The same with everything unfolded: the line is accepted as [m] iff the name survives
+   normalisation, every '@' string converts and the LAST one (default 1) is m's rate, finite and
+   > 0, and the value converts to a non-NaN number (for a set: is kept as a string); name, type
+   and tags are as specified. *)
+Theorem C02_grammar_metric_fields :
+  forall (pf : str -> pfres) (ns raw val : str) (ty : tytok) (attrs : list attr) (m : metric),
+    wf_raw_name raw -> wf_value val -> Forall wf_attr attrs ->
+    (lex pf ns (render_metric raw val ty attrs) = OMetric m <->
+     normalise raw <> [] /\
+     (exists vs, Forall2 (fun s x => pf s = PFVal x) (rate_strings attrs) vs /\
+                 m_rate m = last vs f64_one) /\
+     f64_finite_pos (m_rate m) = true /\
+     m_name m = with_ns ns (normalise raw) /\
+     m_type m = tytok_type ty /\
+     m_tags m = attrs_tags attrs /\
+     ((ty = TokS /\ m_strval m = val /\ m_value m = 0%Z) \/
+      (ty <> TokS /\ m_strval m = [] /\ pf val = PFVal (m_value m) /\ f64_is_nan (m_value m) = false))).
+Proof. exact grammar_metric_fields. Qed.
+Print Assumptions C02_grammar_metric_fields.
+
+(* Every event line of the grammar (any bytes in title and text, lengths < 2^32, attributes in
+   any order and multiplicity) is accepted with title, text (each "\n" pair unescaped) and
+   fields as written; a later attribute overrides an earlier one of its kind ([apply_eattr]);
+   tags are the non-empty tags of all '#' fields in order. *)
+Theorem C02_grammar_event :
+  forall (pf : str -> pfres) (ns title text : str) (attrs : list eattr),
+    N.of_nat (length title) <= max_uint32 -> N.of_nat (length text) <= max_uint32 ->
+    Forall wf_eattr attrs ->
+    lex pf ns (render_event title text attrs) =
+    OEvent (with_tags (fold_left apply_eattr attrs (empty_event title (unescape text)))
+                      (eattrs_tags attrs)).
+Proof. exact grammar_event. Qed.
+Print Assumptions C02_grammar_event.
+
+(* ... and the lengths may be written with any decimal numerals (leading zeros) *)
+Theorem C02_grammar_event_digits :
+  forall (pf : str -> pfres) (ns dt dx title text : str) (attrs : list eattr),
+    is_number dt -> digit_value dt = N.of_nat (length title) -> N.of_nat (length title) <= max_uint32 ->
+    is_number dx -> digit_value dx = N.of_nat (length text) -> N.of_nat (length text) <= max_uint32 ->
+    Forall wf_eattr attrs ->
+    lex pf ns (render_event_digits dt dx title text attrs) = OEvent (expected_event title text attrs).
+Proof. exact grammar_event_digits. Qed.
+Print Assumptions C02_grammar_event_digits.
+
+(* Lines lacking a mandatory part are rejected. *)
+Theorem C02_reject :
+  forall (pf : str -> pfres) (ns : str),
+    (* no name separator: any line at all without ':' *)
+    (forall l, ~ In c_colon l -> exists e, lex pf ns l = OReject e) /\
+    (* no value separator: any line at all without '|' ... *)
+    (forall l, ~ In c_pipe l -> exists e, lex pf ns l = OReject e) /\
+    (* ... and any metric line without '|' after the ':' that ends the key *)
+    (forall raw rest, ~ In c_colon raw -> (forall r, raw <> c_us :: r) -> ~ In c_pipe rest ->
+       exists e, lex pf ns (raw ++ c_colon :: rest) = OReject e) /\
+    (* a type field [tok] (ended by '|' or the end of the line) that is none of c g ms h s *)
+    (forall raw val tok k, wf_raw_name raw -> wf_value val ->
+       ~ In c_pipe tok -> ~ In c_nul tok -> (k = [] \/ exists k', k = c_pipe :: k') ->
+       (forall ty, tok <> tytok_str ty) ->
+       exists e, lex pf ns (raw ++ c_colon :: val ++ c_pipe :: tok ++ k) = OReject e) /\
+    (* an '@' field, in any position, whose string does not convert *)
+    (forall raw val ty attrs s, wf_raw_name raw -> wf_value val -> Forall wf_attr attrs ->
+       In (ARate s) attrs -> (forall x, pf s <> PFVal x) ->
+       exists e, lex pf ns (render_metric raw val ty attrs) = OReject e) /\
+    (* a sample rate that is not a finite number > 0 *)
+    (forall raw val ty attrs rate, wf_raw_name raw -> wf_value val -> Forall wf_attr attrs ->
+       attrs_rate pf f64_one attrs = RateOk rate -> f64_finite_pos rate = false ->
+       exists e, lex pf ns (render_metric raw val ty attrs) = OReject e) /\
+    (* a value, for a type other than set, that does not convert or converts to NaN *)
+    (forall raw val ty attrs, wf_raw_name raw -> wf_value val -> Forall wf_attr attrs -> ty <> TokS ->
+       ((forall x, pf val <> PFVal x) \/ exists x, pf val = PFVal x /\ f64_is_nan x = true) ->
+       exists e, lex pf ns (render_metric raw val ty attrs) = OReject e).
+Proof. exact reject_all. Qed.
+Print Assumptions C02_reject.
+
+(* Whatever is accepted, from ANY byte string (NUL bytes included), is well formed. *)
+Theorem C02_wellformed :
+  forall (pf : str -> pfres) (ns l : str),
+    (forall m, lex pf ns l = OMetric m ->
+       m_name m <> [] /\
+       (exists key, key <> [] /\ Forall (fun b => allowed_byte b = true) key /\ m_name m = with_ns ns key) /\
+       Forall (fun t => t <> [] /\ ~ In c_comma t /\ ~ In c_pipe t) (m_tags m) /\
+       f64_is_nan (m_value m) = false /\
+       f64_finite_pos (m_rate m) = true) /\
+    (forall e, lex pf ns l = OEvent e ->
+       Forall (fun t => t <> [] /\ ~ In c_comma t /\ ~ In c_pipe t) (e_tags e)).
+Proof. exact wellformed_all. Qed.
+Print Assumptions C02_wellformed.
+
+(* Name normalisation is: '/' -> '-', blank and tab -> '_', bytes of [A-Za-z0-9._-] kept,
+   every other byte deleted -- byte by byte; hence output in the alphabet, identity on the
+   alphabet, idempotent, and a morphism for concatenation. *)
+Theorem C02_normalise_spec :
+  (forall l, normalise l =
+             flat_map (fun b => if b =? c_slash then [c_dash]
+                                else if (b =? c_space) || (b =? c_tab) then [c_us]
+                                else if is_alnum b || (b =? c_dot) || (b =? c_dash) || (b =? c_us) then [b]
+                                else []) l) /\
+  (forall l, Forall (fun b => allowed_byte b = true) (normalise l)) /\
+  (forall l, Forall (fun b => allowed_byte b = true) l -> normalise l = l) /\
+  (forall l, normalise (normalise l) = normalise l) /\
+  (forall a b, normalise (a ++ b) = normalise a ++ normalise b).
+Proof. exact normalise_spec. Qed.
+Print Assumptions C02_normalise_spec.
